@@ -9,7 +9,10 @@
 //	(b) every truncation of the valid encodings of the two C15 base valuations,
 //	(c) every single-byte substitution from {00,01,7f,80,fe,ff} of those,
 //	(d) a single-goroutine allocation pass over the length-prefix positions
-//	    of those encodings replaced by huge claimed lengths.
+//	    of those encodings replaced by huge claimed lengths,
+//	(e) every variable-length integer of those encodings (and of values that
+//	    need each byte count) rewritten to every encodable length, with all
+//	    prefixes and continuation-bit flips, plus pkg/kbin driven directly.
 //
 // Oracle: no panic; TotalAlloc delta <= 1 KiB * len(input) + 64 KiB (pass d);
 // a successful decode re-encodes and decodes again to an equal value.
@@ -380,11 +383,15 @@ func armVariants(b []byte, m defs.Mark, tagLoops bool) []armVariant {
 	if m.Len == mx {
 		full = append([]byte{}, b[m.Off:m.Off+m.Len]...)
 	}
-	lasts, conts := []byte{0x10, 0x02, 0x7f}, []byte{0x80, 0x81, 0xff}
+	over := byte(0x10) // smallest overflowing last byte: > 0x0f (32 bit), > 0x01 (64 bit)
+	if mx == 10 {
+		over = 0x02
+	}
+	lasts, conts := []byte{over, 0x7f}, []byte{0x80, 0x81, 0xff}
 	if tagLoops {
 		// in units with tag sections a shifted parse would iterate these as
 		// tag counts of 2^27 and more (see the guard in stage (e))
-		lasts, conts = []byte{0x10, 0x02}, []byte{0x80}
+		lasts, conts = []byte{over}, []byte{0x80}
 	}
 	for _, last := range lasts {
 		site := append([]byte{}, full...)
